@@ -11,14 +11,14 @@
 \*
 \* Levels, loosest first (parser/expression_parser.go, docs/operators.md):
 \*   1 ??(R)   2 .(L)   3 ||   4 &&   5 |   6 ^   7 &   8 == != === !== (N)   9 < <= > >= <=> (N)
-\*   10 << >>  11 + -   12 * / %   13 unary ! - ~   14 **(R)
+\*   10 << >>  11 + -   12 * / %   13 unary ! - ~ (int) (string)   14 **(R)
 EXTENDS Integers, Sequences, FiniteSets, TLC, Json
 
 CONSTANTS Family,      \* "pairs" | "triples" | "unary"
           Emit
 
 BinOps == {"??", ".", "||", "&&", "|", "^", "&", "==", "!=", "===", "!==", "<", "<=", ">", ">=", "<=>", "<<", ">>", "+", "-", "*", "/", "%", "**"}
-UnOps == {"!", "-", "~"}
+UnOps == {"!", "-", "~", "(int)", "(string)"}      \* casts are prefix operators of the unary level
 Level(op) == CASE op = "??" -> 1 [] op = "." -> 2 [] op = "||" -> 3 [] op = "&&" -> 4 [] op = "|" -> 5 [] op = "^" -> 6
                [] op = "&" -> 7 [] op \in {"==", "!=", "===", "!=="} -> 8 [] op \in {"<", "<=", ">", ">=", "<=>"} -> 9
                [] op \in {"<<", ">>"} -> 10 [] op \in {"+", "-"} -> 11 [] op \in {"*", "/", "%"} -> 12 [] op = "**" -> 14
